@@ -15,7 +15,8 @@ type expDep struct {
 	Optional               bool // notation the statement does not require to be extracted
 }
 
-var c19Groups = []string{"com.alpha", "org.beta.core", "net.gamma"}
+// the fourth group id extends the first: an import below com.alpha.ext contains both group ids
+var c19Groups = []string{"com.alpha", "org.beta.core", "net.gamma", "com.alpha.ext"}
 
 func depsString(ds []core_domain.CodeDependency) string {
 	var r []string
@@ -223,7 +224,7 @@ func c19UnusedGen(c *engine.C) engine.Case {
 	} else {
 		build, want = c19Pom(c, "b-")
 	}
-	mask := c.Choose(8, "imported-groups")
+	mask := c.Choose(16, "imported-groups")
 	twoFiles := c.Bool("imports-split-over-two-files")
 	importForm := c.Choose(3, "import-form")
 	return func() engine.Result {
@@ -277,18 +278,34 @@ func c19UnusedGen(c *engine.C) engine.Case {
 		for _, g := range imported {
 			isImported[g] = true
 		}
+		// a dependency whose group id is a proper prefix of an imported group (com.alpha when only com.alpha.ext
+		// is imported) may count as imported or not: the statement does not say what "imported" means there
+		either := func(group string) bool {
+			for _, g := range imported {
+				if strings.HasPrefix(g, group+".") {
+					return true
+				}
+			}
+			return false
+		}
 		var wantUnused []expDep
 		for _, w := range want {
-			if !isImported[w.Group] {
+			if !isImported[w.Group] && !either(w.Group) {
 				wantUnused = append(wantUnused, w)
 			}
 		}
+		var gotStrict []core_domain.CodeDependency
 		for _, d := range got {
-			if isImported[strings.Trim(d.GroupId, "\"'")] {
+			g := strings.Trim(d.GroupId, "\"'")
+			if isImported[g] {
 				res.Violations = append(res.Violations, engine.V("unused", "imported-dependency-reported", "dependency %s:%s is imported by the sources but reported as unused", d.GroupId, d.ArtifactId))
 			}
+			if !isImported[g] && either(g) {
+				continue
+			}
+			gotStrict = append(gotStrict, d)
 		}
-		res.Violations = append(res.Violations, compareDeps("unused", got, wantUnused)...)
+		res.Violations = append(res.Violations, compareDeps("unused", gotStrict, wantUnused)...)
 		return res
 	}
 }
